@@ -594,7 +594,7 @@ _RULE_MORE = {
     "C19": "; the same builders as C18 (declaration orders included), read responses of short length must be rejected, registers added while the server is serving (call 7, 30 sessions), every conversion called twice",
     "C20": "; a parent that keeps growing, refused requests among the writers and two clients sending only refused requests, maintenance runs "
            "for one verification in three, requests still on their way when the instance is stopped (one round in three)",
-    "C10": "; second values of diff/merge pairs that share a slice's storage with the first",
+    "C10": "; second values of diff/merge pairs that share a slice's storage with the first; one diff/merge case in three merges into a value with a history (decoded from an earlier value and already updated once by a difference that shrank its slices, which then grow again inside their old capacity with zero entries that are not the last)",
 }
 for _p, _t in _RULE_MORE.items():
     if _p in AREAS:
